@@ -34,6 +34,8 @@ type State struct {
 	Ret    []*Term
 	Trail  []string
 	TrailL []Lit
+	// Log: ordered events (bounded)
+	Log []string
 	// Sticky: literals that were facts on this path before a write invalidated them (admission facts)
 	Sticky map[string]Lit
 	// RetConst: "true","false","nil","" classification of first result
@@ -56,6 +58,7 @@ func (s *State) clone() *State {
 	}
 	n.Trail = append([]string{}, s.Trail...)
 	n.TrailL = append([]Lit{}, s.TrailL...)
+	n.Log = append([]string{}, s.Log...)
 	if s.Sticky != nil {
 		n.Sticky = make(map[string]Lit, len(s.Sticky))
 		for k, v := range s.Sticky {
@@ -859,8 +862,17 @@ func (w *Walker) write(loc string, kind int, idx, val *Term, st *State, at ast.N
 }
 
 // applyKill transforms the state for a write of the given kind to loc.
+func (s *State) logEv(e string) {
+	if len(s.Log) < 400 {
+		s.Log = append(s.Log, e)
+	}
+}
+
 func applyKill(st *State, loc string, kind int, idx *Term) {
 	st.Killed[loc] |= kind
+	if loc == "ctx.ViewNumber" {
+		st.logEv("ev:epoch-write")
+	}
 	if idx == nil && kind == KillNNOwn {
 		idx = mkTerm(KField, "ctx.MyIndex")
 	}
@@ -952,7 +964,7 @@ func applyKill(st *State, loc string, kind int, idx *Term) {
 					continue
 				}
 			}
-			st.Env[v] = fresh("k")
+			st.Env[v] = fresh("stale:" + loc + ":")
 		}
 	}
 }
@@ -1624,6 +1636,7 @@ func (w *Walker) siteExt(n ast.Node, callee string, st *State, recv *Term, args 
 		return
 	}
 	st.Events[callee] = true
+	st.logEv(callee)
 	if !w.record {
 		return
 	}
